@@ -1,7 +1,7 @@
 (* C48 — OAuth request signatures match the OAuth 1.0 specification (RFC 5849). *)
-From Coq Require Import List NArith Bool Permutation Sorted.
+From Coq Require Import List NArith Bool Permutation Sorted String.
 Import ListNotations.
-From TV Require Import Lib.Obs C48.Model C48.Spec C48.Proofs C48.Proofs2 C48.Run.
+From TV Require Import Lib.Obs C48.Model C48.Spec C48.Proofs C48.Proofs2 C48.Proofs3 C48.Proofs4 C48.Proofs5 C48.Run.
 
 (* Parameter normalisation: Tornado's string is an ascending arrangement of the
    percent-encoded (name, value) pairs, and it is the only one. *)
@@ -48,15 +48,149 @@ Theorem C48_encoding_is_inert : forall s, Forall (fun b => (b < 256)%N) s -> for
 Proof. exact esc_inert. Qed.
 Print Assumptions C48_encoding_is_inert.
 
-Lemma list_eqb_N_refl : forall l, list_eqb N.eqb l l = true.
-Proof. induction l as [|x l IH]; simpl; [reflexivity|]. rewrite N.eqb_refl. exact IH. Qed.
+(* ---------------------------------------------------------------------- *)
+(* Phase 3                                                                *)
+(* ---------------------------------------------------------------------- *)
 
-Theorem C48_model_satisfies_checker : forall m sc ui host port path ps cs ts,
+(* _oauth_escape leaves exactly RFC 3986's unreserved characters alone and writes every other byte
+   as '%' and two UPPER-CASE hex digits of its value (all 256 byte values). *)
+Theorem C48_escape_is_rfc3986 : forall b, (b < 256)%N ->
+  (In b rfc_unreserved -> esc_byte b = [b]) /\
+  (~ In b rfc_unreserved ->
+   exists h l x y, esc_byte b = [37%N; h; l] /\ In h HEXUP /\ In l HEXUP
+                   /\ hexval_up h = Some x /\ hexval_up l = Some y /\ (x * 16 + y)%N = b).
+Proof. exact esc_byte_rfc3986. Qed.
+Print Assumptions C48_escape_is_rfc3986.
+
+Theorem C48_unreserved_set_is_rfc3986 : forall b, is_unreserved b = mem b rfc_unreserved.
+Proof. exact unreserved_is_rfc. Qed.
+Print Assumptions C48_unreserved_set_is_rfc3986.
+
+(* the strict decoder inverts the encoding, so the encoding is injective *)
+Theorem C48_decoding_inverts_encoding : forall s, bytes s -> unesc (esc s) = Some s.
+Proof. exact unesc_esc. Qed.
+Print Assumptions C48_decoding_inverts_encoding.
+
+Theorem C48_encoding_is_injective : forall a b, bytes a -> bytes b -> esc a = esc b -> a = b.
+Proof. exact esc_injective. Qed.
+Print Assumptions C48_encoding_is_injective.
+
+Example C48_bytes_example : bytes [47; 126; 233; 38]%N.
+Proof. repeat constructor. Qed.
+
+(* both signature versions build the RFC 5849 3.4.2 key, with or without a token *)
+Theorem C48_both_versions_use_the_rfc_key : forall v cs tok, key_of v cs tok = spec_key cs (token_secret tok).
+Proof. exact key_of_is_rfc. Qed.
+Print Assumptions C48_both_versions_use_the_rfc_key.
+
+(* the key determines both secrets: split at the first '&', decode both halves *)
+Theorem C48_key_determines_secrets : forall cs ts, bytes cs -> bytes ts ->
+  key_secrets (signing_key cs ts) = Some (cs, ts).
+Proof. exact key_secrets_signing_key. Qed.
+Print Assumptions C48_key_determines_secrets.
+
+Theorem C48_key_is_injective : forall cs ts cs' ts', bytes cs -> bytes ts -> bytes cs' -> bytes ts' ->
+  signing_key cs ts = signing_key cs' ts' -> cs = cs' /\ ts = ts'.
+Proof. exact signing_key_injective. Qed.
+Print Assumptions C48_key_is_injective.
+
+(* ... which the unencoded key of the old OAuth 1.0 code (before fix f833e02) did not *)
+Theorem C48_unencoded_key_is_ambiguous : exists cs ts cs' ts',
+  bytes cs /\ bytes ts /\ bytes cs' /\ bytes ts' /\ (cs, ts) <> (cs', ts') /\ raw_key cs ts = raw_key cs' ts'.
+Proof. exact raw_key_ambiguous. Qed.
+Print Assumptions C48_unencoded_key_is_ambiguous.
+
+(* urllib.parse.quote's default safe set is not the RFC encoding (seeded change C48_2) *)
+Theorem C48_default_safe_set_is_not_rfc : exists s, bytes s /\ py_quote [47%N] s <> esc s.
+Proof. exact default_safe_is_not_rfc. Qed.
+Print Assumptions C48_default_safe_set_is_not_rfc.
+
+(* the normalised parameter string does not depend on the order (dict order) of the parameters *)
+Theorem C48_normalization_ignores_order : forall a b, Permutation a b -> normalized_parameters a = normalized_parameters b.
+Proof. exact normalized_parameters_perm. Qed.
+Print Assumptions C48_normalization_ignores_order.
+
+(* OAuthMixin._oauth_request_parameters: args.update(base_args); args.update(parameters) signs the
+   request's own parameters plus every protocol parameter they do not name *)
+Theorem C48_request_signs_the_rfc_parameter_set : forall ck tk t n user, NoDup (keys user) ->
+  Permutation (signed_args ck tk t n user) (spec_signed (base_args ck tk t n) user).
+Proof. exact signed_args_is_spec. Qed.
+Print Assumptions C48_request_signs_the_rfc_parameter_set.
+
+(* whatever the request's parameters are, the returned dict has exactly the seven protocol
+   parameters, oauth_signature last: request parameters cannot add to or override it *)
+Theorem C48_request_returns_only_protocol_parameters : forall sig ck tk t n,
+  map fst (request_parameters sig ck tk t n) = protocol_names
+  /\ last (request_parameters sig ck tk t n) ([], []) = (K_SIGNATURE, sig).
+Proof. exact request_parameter_names. Qed.
+Print Assumptions C48_request_returns_only_protocol_parameters.
+
+(* the request signature for ANY MAC function and both versions *)
+Theorem C48_request_signature_matches_rfc :
+  forall (mac : text -> text -> text) v method scheme ui host port path ck cs tk tsec t n user params,
   ~ In 64%N host -> (forall p, port = Some p -> ~ In 64%N p /\ ~ In 58%N p) -> (port = None -> ~ In 58%N host) ->
-  check_case (m, sc, ui, host, port, path, ps, cs, ts) (run_case (m, sc, ui, host, port, path, ps, cs, ts)) = true.
+  NoDup (keys user) ->
+  rfc_normalized (spec_signed (base_args ck tk t n) user) params ->
+  mac (request_key v cs tsec) (request_base method scheme (authority ui host port) path ck tk t n user)
+  = mac (spec_key cs tsec) (rfc_base_string method (rfc_base_uri scheme host port path) params).
+Proof. exact request_signature_is_rfc. Qed.
+Print Assumptions C48_request_signature_matches_rfc.
+
+(* a server that drops oauth_signature from what is sent (the request's parameters updated with the
+   returned dict) normalises to the very string that was signed -- provided the request's own
+   parameters do not use a protocol parameter name ... *)
+Theorem C48_request_verifies_at_the_server : forall sig ck tk t n user,
+  NoDup (keys user) -> (forall k, In k (keys user) -> ~ In k protocol_names) ->
+  normalized_parameters (server_params (sent_parameters user (request_parameters sig ck tk t n)))
+  = normalized_parameters (signed_args ck tk t n user).
+Proof. exact request_verifies. Qed.
+Print Assumptions C48_request_verifies_at_the_server.
+
+Example C48_request_hypotheses_example :
+  NoDup (keys [(txt "status", txt "a b"); (txt "page", txt "2")])
+  /\ forall k, In k (keys [(txt "status", txt "a b"); (txt "page", txt "2")]) -> ~ In k protocol_names.
 Proof.
-  intros. unfold check_case, run_case, spec_base. rewrite spec_params_eq.
-  rewrite base_string_is_rfc by assumption. rewrite signing_key_is_rfc.
-  cbn [obs_eqb]. rewrite !list_eqb_N_refl. reflexivity.
+  split.
+  - repeat constructor; cbn [In keys map fst]; intro H; repeat (destruct H as [H|H]; [discriminate H|]); exact H.
+  - intros k [<-|[<-|[]]]; vm_compute; intro H; repeat (destruct H as [H|H]; [discriminate H|]); exact H.
+Qed.
+
+(* ... and not otherwise: a request parameter named oauth_nonce is signed in place of the
+   generated nonce, while the returned dict carries the generated one *)
+Theorem C48_request_override_witness : exists sig ck tk t n user,
+  NoDup (keys user) /\
+  normalized_parameters (server_params (sent_parameters user (request_parameters sig ck tk t n)))
+  <> normalized_parameters (signed_args ck tk t n user).
+Proof. exact request_override_witness. Qed.
+Print Assumptions C48_request_override_witness.
+
+(* the timestamp and nonce texts are the canonical decimal / lower-case hex numerals *)
+Theorem C48_timestamp_and_nonce_numerals : forall t n, bytes n ->
+  is_decimal_of t (dec t) = true /\ is_hex_of n (hex_lower n) = true.
+Proof. intros t n Hn. split; [apply dec_is_decimal|apply hex_lower_is_hex, Hn]. Qed.
+Print Assumptions C48_timestamp_and_nonce_numerals.
+
+(* the model satisfies the checker on every kind of case *)
+Theorem C48_model_satisfies_checker : forall i,
+  match i with
+  | ISign _ (m, sc, ui, host, port, path, _, _, _) => wf_url (m, sc, ui, host, port, path)
+  | IReq _ u user _ _ n => wf_url u /\ NoDup (keys user) /\ bytes n
+  | IEsc s => bytes s
+  end ->
+  check_case i (run_case i) = true.
+Proof.
+  intros [v [[[[[[[[m sc] ui] host] port] path] ps] cs] tok]|v [[[[[m sc] ui] host] port] path] user [[[ck cs] tk] tsec] t n|s] H.
+  - apply sign_satisfies_checker. exact H.
+  - destruct H as (H1 & H2 & H3). apply req_satisfies_checker; assumption.
+  - apply esc_satisfies_checker. exact H.
 Qed.
 Print Assumptions C48_model_satisfies_checker.
+
+Example C48_wf_url_example : wf_url (txt "GET", txt "HTTP", Some (txt "u:p"), txt "Example.com", Some (txt "80"), txt "/p").
+Proof.
+  repeat split.
+  - vm_compute. intro H; repeat (destruct H as [H|H]; [discriminate H|]); exact H.
+  - injection H as <-. vm_compute. intro H; repeat (destruct H as [H|H]; [discriminate H|]); exact H.
+  - injection H as <-. vm_compute. intro H; repeat (destruct H as [H|H]; [discriminate H|]); exact H.
+  - discriminate.
+Qed.
